@@ -186,3 +186,38 @@ Proof. vm_compute. reflexivity. Qed.
 Example ex_height_codec : enc_height 256 = [0; 1; 0; 0; 0; 0; 0; 0]%N /\ dec_height (enc_height 18446744073709551615) = Some 18446744073709551615%N
   /\ dec_height [1; 2; 3]%N = None.
 Proof. vm_compute. repeat split; reflexivity. Qed.
+
+(* REFINEMENT FROM TRANSLATED CODE.  [step m (OSetHeight n)] and [step m (OSave h d s)] are what DefaultStore.SetHeight and
+   DefaultStore.SaveBlockData do — the Go functions themselves (pkg/store/store.go, with Height, GetHeader, encodeHeight,
+   decodeHeight inside them), translated from /repo's source on every run and evaluated by Model/GoLite.v against a
+   scripted datastore whose calls are logged (Check/GoLiteStore.v, for ALL worlds).  For EVERY durable image:
+   SetHeight puts the height record := n exactly when the model writes it (n numerically above the recorded height) and
+   fails exactly when the model answers RErr; SaveBlockData performs, inside ONE datastore batch committed once and
+   last, the primitive writes of [save_prims] — same keys, same order — and nothing outside the batch; a save that
+   reports an error has committed nothing. *)
+From Verif Require Proofs.GoLiteStoreRefine Check.GoLiteStore Model.GoLite.
+Theorem C14_translated_set_height_refines_step_full : forall (m : img) (n : N),
+  exists o, GoLiteStore.run_calls GoLiteStore.set_height_name (GoLiteStore.height_store (GoLiteStoreRefine.get_of m) true)
+                                  [GoLiteStore.ctx; GoLite.VN n] = Some o /\
+            flat_map GoLiteStoreRefine.direct_put (snd o) = GoLiteStoreRefine.model_puts (fst (step m (OSetHeight n))) /\
+            (fst o = [GoLite.VErr true] <-> snd (step m (OSetHeight n)) = RErr).
+Proof. exact GoLiteStoreRefine.translated_setheight_refines_step. Qed.
+Print Assumptions C14_translated_set_height_refines_step_full.
+
+Theorem C14_translated_save_refines_step_full : forall (m : img) (h : hdr) (d s : N),
+  let w := GoLiteStoreRefine.saveworld_of m h in
+  exists o, GoLiteStore.run_calls GoLiteStore.save_name (GoLiteStore.save_store w)
+                                  [GoLiteStore.ctx; GoLiteStore.header_arg w; GoLiteStore.data_arg w; GoLiteStore.sig_arg] = Some o /\
+            fst o = [GoLite.VNil] /\
+            flat_map GoLiteStoreRefine.batch_shape (snd o) = map prim_shape (save_prims m h d s) /\
+            flat_map GoLiteStoreRefine.direct_put (snd o) = [] /\
+            filter GoLiteStoreRefine.is_commit (snd o) = [GoLiteStore.commit_call] /\
+            List.last (snd o) GoLite.VUnit = GoLiteStore.commit_call.
+Proof. exact GoLiteStoreRefine.translated_save_refines_step. Qed.
+Print Assumptions C14_translated_save_refines_step_full.
+
+Theorem C14_translated_failed_save_commits_nothing_full : forall w,
+  fst (GoLiteStore.save_expect w) = [GoLite.VErr true] ->
+  filter GoLiteStoreRefine.is_commit (snd (GoLiteStore.save_expect w)) = [] \/ GoLiteStore.v_commit_ok w = false.
+Proof. exact GoLiteStoreRefine.failed_save_commits_nothing. Qed.
+Print Assumptions C14_translated_failed_save_commits_nothing_full.
